@@ -11,3 +11,5 @@ python3 tools/derive_unit.py contracts/C09/merge_state.toml contracts/C08/merge_
   --not-covered "everything around the pairwise merge: consumer_incremental_apply_entries / supplier_provide_changes (which entries and attribute states travel), resolve_add_conflict and the conflict entries, validate_repl, the post-replication plugins (attrunique, refint, memberof), refresh; convergence of the whole system is a protocol-level property outside per-function contracts — this unit proves the algebra of one merge step (last writer wins per attribute, order independent)"
 python3 tools/derive_unit.py contracts/C10/supplier_mapping.toml contracts/C09/supplier_supply.toml C09 supplier_supply 'reply_supplies_all|incr_of' \
   --not-covered "be::retrieve_range (WHICH entries fall inside the windows) and ReplIncrementalEntryV1::new (which attribute states of an entry are sent); the consumer side applying every supplied entry (consumer_apply_changes); supplier_provide_refresh"
+python3 tools/derive_unit.py contracts/C26/lifecycle.toml contracts/C23/hidden_wrapper.toml C23 hidden_wrapper 'fc_match\(r' \
+  --not-covered "that every search / exists / LDAP entry point builds its executed filter with into_ignore_hidden (the event constructors), and into_recycled for recycle-bin searches"
